@@ -371,7 +371,7 @@ func runC03(c *Ctx) error {
 		n                           int
 	}{
 		{"parentheses", "x := ", "(", "1", ")", 3000000}, {"unary minus", "x := ", "-(", "1", ")", 1000000},
-		{"operator chain", "x := 1", " + 1", "", "", 400000}, {"selector chain", "type T struct { n *T }\nt := &T{}\nx := t", ".n", "", "", 300000},
+		{"operator chain", "x := 1", " + 1", "", "", 400000}, {"long operator chain", "x := 1", "+1", "", "", 4000000}, {"selector chain", "type T struct { n *T }\nt := &T{}\nx := t", ".n", "", "", 300000},
 		{"index chain", "x := []int{1}\ny := x", "[0", "", "]", 500000}, {"calls", "func f(a int) int { return a }\nx := ", "f(", "1", ")", 500000},
 		{"if blocks", "func f() {", "if true {", "", "}", 300000}, {"slice literals", "x := ", "[]any{", "1", "}", 300000},
 		{"function literals", "x := ", "func() int { return ", "1", " }()", 200000}, {"not", "x := ", "!", "true", "", 6000000},
@@ -388,9 +388,7 @@ func runC03(c *Ctx) error {
 			d.n = 500000 // the long shapes; one- and two-character shapes keep millions of levels (a few MB of source)
 		}
 		for _, o := range []int{0, 3} {
-			if o == 3 && d.n > 2500 {
-				d.n = 2500 // the dumps render the whole tree per level (quadratic): with them, a depth inside the accepted range
-			}
+			// (with the dump options too: the dump is written level by level and bounded like the compiler)
 			src := d.pre + strings.Repeat(d.open, d.n) + d.mid + strings.Repeat(d.close, d.n)
 			if d.name == "if blocks" {
 				src += "}"
